@@ -105,19 +105,31 @@ func (c *Client) Ping(quit <-chan struct{}) error {
 		return fmt.Errorf("%w; PING not send", ErrClosed)
 	}
 
-	// install callback
+	// The callback gets installed with the write lock held. A connection
+	// loss can not release it before the request got submitted this way.
+	conn, err := c.lockWrite(quit)
+	if err != nil {
+		return fmt.Errorf("%w; PING not send", err)
+	}
 	done := make(chan error, 1)
 	select {
 	case c.pingAck <- done:
 		verifYield("ping.slot")
 		break // OK
 	default:
+		c.writeSem <- conn // unlock write
 		verifYield("ping.max")
 		return fmt.Errorf("%w; PING unavailable", ErrMax)
 	}
 
-	// submit transaction
-	if err := c.write(quit, packetPINGREQ); err != nil {
+	// submit transaction; keep synchronised with write
+	err = writeTo(conn, packetPINGREQ, c.PauseTimeout)
+	if err != nil {
+		if !nonNilIsAny(err, connClosedErrors) {
+			conn.Close() // signal read routine
+		}
+		c.writeSem <- connPending // unlock write; pending connect
+		verifYield("w.fail")
 		select {
 		case ack := <-c.pingAck: // unlock
 			if ack != done {
@@ -126,11 +138,10 @@ func (c *Client) Ping(quit <-chan struct{}) error {
 		default: // picked up by unrelated pong
 		}
 		verifYield("ping.clean")
-		if errors.Is(err, ErrSubmit) {
-			return fmt.Errorf("%w; PING in limbo", err)
-		}
-		return fmt.Errorf("%w; PING not send", err)
+		return fmt.Errorf("%w; PING in limbo", errors.Join(ErrSubmit, err))
 	}
+	c.writeSem <- conn // unlock write
+	verifYield("w.ok")
 
 	select {
 	case err := <-done:
